@@ -235,6 +235,7 @@ func checkC10(c *hx.Checker) {
 			}
 		}
 		sweepChunk(ch.k.op, ch.k.dt, bits, stats[ch.k], tolFor(ch.k.op, ch.k.dt))
+		c.Tick()
 		emu.Lock()
 		elements += int64(len(bits))
 		emu.Unlock()
